@@ -1,7 +1,7 @@
 import StraxModel.Driver.Parse
 import StraxModel.Model.Align
-namespace Strax.Driver
-open Strax Strax.Align
+namespace Strax.Driver.C08
+open Strax Strax.Align Strax.Driver
 
 /-- chunk of a dependency: `start~stop~rows` (rows `t:e:id,…` or `-`) -/
 def parseDepChunk (name kind : String) (s : String) : Option RawChunk :=
@@ -32,11 +32,32 @@ def buildDeps (ds : List (Dep × List RawChunk)) : Except Err (List Dep × List 
   | .error e => .error e
   | .ok cs => .ok (ds.map (·.1), cs)
 
+/-- save policy token: `0` / `1` (tolerant / strict) or `s:<n>,<n>…` = the `save_when` values of the
+provided data types (`NEVER 0, EXPLICIT 1, TARGET 2, ALWAYS 3`), decided by `saveWhenStrict` -/
+def parsePolicy (s : String) : Option Bool :=
+  if s.startsWith "s:" then (parseNats (s.drop 2).toString).map saveWhenStrict else parseBool s
+
+end Strax.Driver.C08
+
+namespace Strax.Driver
+open Strax Strax.Align Strax.Driver.C08
+
 /-- ops of theory T4 (input alignment in `Plugin.iter`). -/
 def handleC08 : List String → Option String
   | "c08.iter" :: strict :: deps => do
-    let st ← parseBool strict; let ds ← deps.mapM parseDepTok
+    let st ← parsePolicy strict; let ds ← deps.mapM parseDepTok
     pure <| showExcept showCalls (buildDeps ds >>= fun (d, cs) => iterModel d cs st)
+  | "c08.tenpass" :: strict :: deps => do   -- is this input's failure exactly the ten-pass limit (D9)?
+    let st ← parsePolicy strict; let ds ← deps.mapM parseDepTok
+    pure <| showExcept (fun (d, cs) =>
+        -- first digit: ten passes give RuntimeError; second: a budget that always suffices runs to the end
+        let ten := match iterRunP maxPasses d cs st with
+          | .error .runtimeError => "1"
+          | _ => "0"
+        let big := match iterRunP (maxPasses + (cs.map allRows).flatten.length + 2) d cs st with
+          | .ok _ => "1"
+          | .error _ => "0"
+        ten ++ big) (buildDeps ds)
   | "c08.run" :: strict :: deps => do    -- calls and leftover
     let st ← parseBool strict; let ds ← deps.mapM parseDepTok
     pure <| showExcept (fun r => s!"{showCalls r.calls} | {";".intercalate (r.leftover.map showRows)}")
